@@ -74,7 +74,9 @@ SubRules == {
   \* declared source parameters that are spelled like the generator's own generic names
   Rule(SubSrc(<<Id("_0"), Id("_1")>>), Ext("Sub2", <<Id("_0"), Id("_1")>>)),
   Rule(SubSrc(<<Id("_1"), Id("_0")>>), Ext("W", <<Ext("Sub2", <<Id("_0"), Id("_1")>>), Id("_1")>>)),
-  Rule(SubSrc(<<Id("A"), Id("B")>>), TPath(FALSE, <<"crate", "x", "Sub3">>, <<Id("X"), Id("B")>>)) }
+  Rule(SubSrc(<<Id("A"), Id("B")>>), TPath(FALSE, <<"crate", "x", "Sub3">>, <<Id("X"), Id("B")>>)),
+  \* relative multi-segment paths whose last segment is spelled like a source parameter are not parameters
+  Rule(SubSrc(<<Id("A"), Id("B")>>), Ext("Wrap", <<Id("A"), TPath(FALSE, <<"markers", "A">>, <<>>), Ext("Inner", <<TPath(FALSE, <<"other", "B">>, <<>>), Id("B")>>)>>)) }
 MapRule == Rule(TPath(FALSE, <<"BTreeMap">>, <<>>), Ext("Map", <<>>))
 MapRule2 == Rule(TPath(FALSE, <<"BTreeMap">>, <<Id("K"), Id("V")>>), Ext("Map", <<Id("V"), Id("K")>>))
 SubSettings == {[Base EXCEPT !.subs = <<r>>] : r \in SubRules}
